@@ -32,6 +32,17 @@ def variants():
                 return m[(b, a)]
             return 1 if a == b else -1
         yield 'dict-max-gap%s' % gap, alignment.make_substitution_fn(m, gap=gap, opt='max'), sc, gap
+    # a direction-dependent dictionary (both (a, b) and (b, a) present with different scores): the pair (s1 symbol, s2 symbol)
+    # is looked up first, the mirrored pair only when it is absent
+    md = {('A', 'B'): 2, ('B', 'A'): -3, ('A', 'A'): 1, ('C', 'B'): 0.5}
+
+    def scd(a, b):
+        if (a, b) in md:
+            return md[(a, b)]
+        if (b, a) in md:
+            return md[(b, a)]
+        return 1 if a == b else -1
+    yield 'dict-directed-gap1', alignment.make_substitution_fn(md, gap=1, opt='max'), scd, 1
     # min orientation: the dictionary holds costs
     mc = {('A', 'B'): 0.25, ('C', 'C'): -2}
 
